@@ -145,11 +145,20 @@ func (w *world) doCreateSession(inc *incM, kind string) *sessM {
 			}
 		}
 	}
+	// The ca_maxoperations the client asks for is a function of the
+	// sequence ID, so that a retransmission of a CREATE_SESSION carries the
+	// arguments of the original. Less than, as much as and more than what
+	// the server is configured to accept: whatever the reply grants is the
+	// limit that the model applies to the COMPOUNDs of the session. (The
+	// size limits are always asked for in full: the program does not police
+	// them, and the requests and replies of the harness stay far below
+	// them, as those of a real client do.)
+	reqMaxOps := requestedMaxOperations[seq%uint32(len(requestedMaxOperations))]
 	c := w.runSimple("CREATE_SESSION", &nfsv4.NfsArgop4_OP_CREATE_SESSION{OpcreateSession: nfsv4.CreateSession4args{
 		CsaClientid: inc.clientID,
 		CsaSequence: seq,
 		CsaForeChanAttrs: nfsv4.ChannelAttrs4{
-			CaMaxrequestsize: 1 << 20, CaMaxresponsesize: 1 << 20, CaMaxresponsesizeCached: 1 << 16, CaMaxoperations: 100, CaMaxrequests: 100,
+			CaMaxrequestsize: 1 << 20, CaMaxresponsesize: 1 << 20, CaMaxresponsesizeCached: 1 << 16, CaMaxoperations: reqMaxOps, CaMaxrequests: 100,
 		},
 		CsaBackChanAttrs: nfsv4.ChannelAttrs4{CaMaxrequestsize: 4096, CaMaxresponsesize: 4096, CaMaxoperations: 2, CaMaxrequests: 1},
 	}})
@@ -201,7 +210,24 @@ func (w *world) doCreateSession(inc *incM, kind string) *sessM {
 		if ok.CsrForeChanAttrs.CaMaxrequests != slotsPerSess {
 			w.failf("harness: CREATE_SESSION granted %d slots, expected %d", ok.CsrForeChanAttrs.CaMaxrequests, slotsPerSess)
 		}
-		sess = &sessM{inc: inc, ord: len(inc.sessions), id: ok.CsrSessionid}
+		granted := ok.CsrForeChanAttrs
+		if granted.CaMaxoperations < 2 {
+			w.failf("C19: CREATE_SESSION granted ca_maxoperations %d: not even SEQUENCE and one operation fit into a COMPOUND of this session", granted.CaMaxoperations)
+		}
+		if granted.CaMaxrequestsize > 1<<20 || granted.CaMaxresponsesize > 1<<20 || granted.CaMaxresponsesizeCached > 1<<16 {
+			// RFC 8881 section 18.36.3: the server may lower what the
+			// client asked for, not raise it.
+			w.failf("C19: CREATE_SESSION granted fore channel sizes %d/%d/%d, more than the client asked for (%d/%d/%d)", granted.CaMaxrequestsize, granted.CaMaxresponsesize, granted.CaMaxresponsesizeCached, 1<<20, 1<<20, 1<<16)
+		}
+		sess = &sessM{inc: inc, ord: len(inc.sessions), id: ok.CsrSessionid, maxOps: int(granted.CaMaxoperations)}
+		switch {
+		case granted.CaMaxoperations < reqMaxOps:
+			w.label("create_session_maxoperations_lowered_by_server")
+		case granted.CaMaxoperations > reqMaxOps:
+			w.label("create_session_maxoperations_raised_by_server")
+		default:
+			w.label("create_session_maxoperations_as_requested")
+		}
 		for i := 0; i < slotsPerSess; i++ {
 			sess.slots = append(sess.slots, &slotM{})
 		}
@@ -217,7 +243,7 @@ func (w *world) doCreateSession(inc *incM, kind string) *sessM {
 			// variants straddle 2^32.
 			w.label("create_session_sequence_wrapped")
 		}
-		w.setOut(sess.String())
+		w.setOut(fmt.Sprintf("%s maxops=%d", sess, sess.maxOps))
 	}
 	if kind != "next" && mode != "exec" && swept == 0 {
 		if d := before.diff(w.snapshot()); d != "" {
@@ -269,6 +295,10 @@ func (w *world) doDestroyClientID(target *incM) {
 	}
 	w.checkQuiescent()
 }
+
+// requestedMaxOperations: the values of ca_maxoperations the clients ask
+// for in CREATE_SESSION, indexed by the sequence ID of the request.
+var requestedMaxOperations = []uint32{100, 2, maxOperations, 5}
 
 // ---------------------------------------------------------------- session compounds
 
@@ -363,6 +393,18 @@ func (w *world) sendSeq(sess *sessM, slot, seq uint32, class string, t *tmpl, ca
 		switch {
 		case seq == sl.lastSeq && sl.busy != nil:
 			c.mode, c.orig = "stale_busy", sl.last
+			if c.orig == nil {
+				c.orig = sl.dropped
+			}
+		case seq == sl.lastSeq && sl.last == nil && sl.dropped != nil:
+			// The reply to the slot's last request was still retained when
+			// a request with the next sequence ID arrived and was refused
+			// with NFS4ERR_TOO_MANY_OPS: the server may have discarded it at
+			// that moment or not.
+			c.mode, c.orig = "maybe_cached", sl.dropped
+			if !bytes.Equal(encodeArgs(t.ops), encodeArgs(sl.dropped.args.Argarray[1:])) {
+				c.mayFalse = true
+			}
 		case seq == sl.lastSeq && sl.last == nil:
 			c.mode, c.expStatus = "error", nfsv4.NFS4ERR_SEQ_MISORDERED
 		case seq == sl.lastSeq:
@@ -378,16 +420,39 @@ func (w *world) sendSeq(sess *sessM, slot, seq uint32, class string, t *tmpl, ca
 				c.mayFalse = true
 			}
 		case seq == sl.lastSeq+1:
-			if 1+len(t.ops) > maxOperations {
+			if 1+len(t.ops) > sess.maxOps {
+				// RFC 8881 sections 18.36.3 and 18.46.3: refused by SEQUENCE,
+				// nothing is executed, and the slot's sequence ID is not
+				// consumed: the next request with this sequence ID is a new
+				// request (and a retransmission of this one is refused again).
 				c.mode, c.expStatus = "error", nfsv4.NFS4ERR_TOO_MANY_OPS
-				// The slot's cached reply is discarded nevertheless.
+				// The slot's cached reply is discarded nevertheless (or not:
+				// see maybe_cached above).
+				if sl.last != nil {
+					sl.dropped = sl.last
+				}
 				sl.last = nil
+				if r := sl.refused; r != nil && r.cache == cache && bytes.Equal(encodeArgs(t.ops), encodeArgs(r.args.Argarray[1:])) {
+					c.refusedBefore = true
+				}
+				sl.refused = c
 			} else {
 				c.mode = "exec"
+				c.afterRefused, sl.refused = sl.refused, nil
 			}
 		default:
 			c.mode, c.expStatus = "error", nfsv4.NFS4ERR_SEQ_MISORDERED
 		}
+	}
+
+	if limit := sess.maxOps; limit > 0 && 1+len(t.ops) > limit && !(c.mode == "error" && c.expStatus == nfsv4.NFS4ERR_TOO_MANY_OPS) {
+		// More operations than the session allows, but the sequence ID
+		// decides first: a retransmission, a duplicate, a misordered one.
+		how := c.mode
+		if c.mode == "error" {
+			how = shortStatus(c.expStatus)
+		}
+		w.label("oversized_compound_answered_by_sequence_id:" + how)
 	}
 
 	var before snapshot
@@ -413,6 +478,7 @@ func (w *world) sendSeq(sess *sessM, slot, seq uint32, class string, t *tmpl, ca
 	if c.mode == "wait" {
 		w.label("inflight_duplicate_sent")
 	}
+	w.mustHaveReturned(c)
 	w.collect()
 	if checkUnchanged && (c.mode != "wait") {
 		if d := before.diff(w.snapshot()); d != "" {
@@ -564,6 +630,16 @@ func (w *world) finish(c *call) {
 			w.failf("C19: request %q (%s on %s slot %d seq %d) was answered %s, expected a SEQUENCE failing with %s", c.desc, c.class, c.sess, c.slot, c.seq, statusOf(res), shortStatus(c.expStatus))
 		}
 		w.label("seq_error:" + shortStatus(c.expStatus))
+		if c.expStatus == nfsv4.NFS4ERR_TOO_MANY_OPS {
+			w.label("compound_too_many_ops")
+			w.label(fmt.Sprintf("compound_too_many_ops:limit+%d", len(c.args.Argarray)-c.sess.maxOps))
+			if c.refusedBefore {
+				w.label("too_many_ops_retransmission_refused_again")
+			}
+			if c.sess.slots[c.slot].dropped != nil {
+				w.label("compound_too_many_ops_on_slot_with_cached_reply")
+			}
+		}
 		if c.expStatus == nfsv4.NFS4ERR_SEQ_MISORDERED && int(c.slot) < len(c.sess.slots) {
 			if sl := c.sess.slots[c.slot]; sl.preset {
 				switch {
@@ -589,6 +665,23 @@ func (w *world) finish(c *call) {
 		w.label("stale_replay_on_busy_slot")
 	case "cached":
 		w.finishCached(c)
+	case "maybe_cached":
+		// A retransmission of the request that the slot executed last,
+		// after a request with the next sequence ID was refused with
+		// NFS4ERR_TOO_MANY_OPS. It is not executed (sendSeq compares the
+		// snapshots); the cached reply is acceptable, and so is what a slot
+		// without a retained reply answers.
+		switch {
+		case isSeqError(res, nfsv4.NFS4ERR_SEQ_MISORDERED):
+			w.label("retransmission_after_too_many_ops:reply_was_discarded")
+		case c.mayFalse && isSeqError(res, nfsv4.NFS4ERR_SEQ_FALSE_RETRY):
+			w.label("retransmission_after_too_many_ops:false_retry_rejected")
+		default:
+			if ok, _ := replayAcceptable(c.orig, c.raw, res); !ok {
+				w.failf("C19: after a request with the next sequence ID was refused with NFS4ERR_TOO_MANY_OPS, the retransmission of the slot's last executed request %q (slot %d, sequence %d) was answered %s, which is neither its original reply %s nor NFS4ERR_SEQ_MISORDERED", c.orig.desc, c.slot, c.seq, statusOf(res), statusOf(c.orig.res))
+			}
+			w.label("retransmission_after_too_many_ops:answered_from_cache")
+		}
 	case "wait":
 		// Verified together with the original.
 		if !c.orig.collected {
@@ -689,6 +782,7 @@ func (w *world) finishExec(c *call) {
 	}
 	sl.lastSeq = c.seq
 	sl.last = c
+	sl.dropped = nil
 
 	ok, st, isSeq := seqResult(res)
 	if !isSeq || st != nfsv4.NFS4_OK {
@@ -753,6 +847,19 @@ func (w *world) finishExec(c *call) {
 		t.onDone(c, results)
 	}
 	w.label("exec:" + t.kind)
+	if c.afterRefused != nil {
+		// The sequence ID that an oversized request did not consume.
+		w.label("slot_reused_after_too_many_ops")
+		if c.everParked {
+			w.label("slot_reused_after_too_many_ops_by_request_that_parked")
+		}
+	}
+	if len(c.args.Argarray) == c.sess.maxOps {
+		w.label("compound_at_max_operations")
+		if len(results) == len(t.ops) {
+			w.label("compound_at_max_operations_executed_completely")
+		}
+	}
 	if w.p.labelErrorReturns && last != nfsv4.NFS4_OK {
 		w.label("error_return:" + opName(results[len(results)-1].GetResop()) + ":" + shortStatus(last))
 	}
